@@ -113,3 +113,12 @@ mod unit_tests {
         }
     }
 }
+
+// verification hook (feature `verif` only)
+#[cfg(feature = "verif")]
+pub fn verif_calculate_collect_reward(
+    position_reward: PositionRewardInfo,
+    vault_amount: u64,
+) -> (u64, u64) {
+    calculate_collect_reward(position_reward, vault_amount)
+}
